@@ -158,6 +158,8 @@ class World:
             self._diagnose(ctx, path, have, new_state, new_text, old_state, old_text, facts)
             if len(ctx.violations) != nv:
                 ok = False
+                if not any(v["property"] in ("C03", "C15") for v in ctx.violations[nv:]):
+                    self._occurrences(ctx, path, have, new_state, new_text, facts)
         for path, text in self.project.get("extra", {}).items():
             if path in self.files:
                 continue
@@ -171,6 +173,24 @@ class World:
                 ctx.violation("C04", "unconfigured_file_written", dict(facts, path=path), "file %r appeared" % path)
                 ok = False
         return ok
+
+    def _occurrences(self, ctx, path, have, new_state, new_text, facts):
+        """C03 next to a C04 diagnosis: every occurrence, together with the literal text around it on its line, must be
+        present in the file (a replacement that lands shifted destroys both the literal and the occurrence)."""
+        for line in self.files[path]:
+            segs = line["segs"]
+            for i, seg in enumerate(segs):
+                if isinstance(seg, str) or seg["slot"] == "{pep440_version}":
+                    continue
+                want = region_text(seg["slot"], self.vtree, new_state, new_text, self.clock_fields())
+                before = segs[i - 1][-6:] if i > 0 and isinstance(segs[i - 1], str) else ""
+                after = segs[i + 1][:6] if i + 1 < len(segs) and isinstance(segs[i + 1], str) else ""
+                if before + want + after not in have:
+                    ctx.violation("C03", "occurrence_not_shown", dict(facts, path=path, region=seg["slot"], regime=self._regime(path),
+                                                                      is_config=(path == self.syntax)),
+                                  "file %r: no occurrence %r of slot %r is left after the update" % (
+                                      path, before + want + after, seg["slot"]))
+                    return
 
     def _diagnose(self, ctx, path, have, new_state, new_text, old_state, old_text, facts):
         pos = 0
